@@ -2,8 +2,10 @@
   C07 — "Sample order and repetition do not change what is inferred"  (DESIGN §8.7), per-function pieces.
 
   1. `mergeFieldSets_keys_perm` — the key set of `merge_field_sets` depends only on the *set* of field sets
-  2. `mergeFieldSets_opt_perm`  — optional status per key: FALSE in general (order-dependence witness),
-                                  `_partial` on opt-free sets (the generator stage)
+  2. `mergeFieldSets_opt_perm`  — optional status per key: still FALSE in general after the repair of
+                                  generator.py:155 (order-dependence witness), `_partial` on opt-free sets
+                                  (the generator stage); TRUE for arbitrary sets in the lax form
+                                  `mergeFieldSets_hasOpt_perm`
   3. `mkUnion_perm`             — `DUnion(*ts)` up to member order (no `str`/literals, injective hash)
 -/
 import J2M.Proofs.Merge
@@ -124,6 +126,31 @@ theorem mergeFieldSets_opt_perm_false : ¬ mergeFieldSets_opt_perm_Statement := 
     order_witness.1 order_witness.2 "a" (.union [.opt .str, .int]) (.opt (.union [.int, .str]))
     (by simp) (by simp)
   simp [Ty.isOpt] at this
+
+/-- **C07.2 (full, in the lax form).**  For *arbitrary* field sets (`DOptional` fields allowed — the
+    registry's `merge_models`): whether the merged type of a key is *optional-like* (`HasOptMember`: a
+    `DOptional` at its top or among its flattened union members — what `optimize_type` turns into a
+    `DOptional`) is invariant under permutation and duplication of the sets.
+    False before the repair of generator.py:155 (the old `order_witness`). -/
+theorem mergeFieldSets_hasOpt_perm {c : LitCfg} {e : EqEnv} {sets₁ sets₂ : List Fields} {r₁ r₂ : Fields}
+    (hs : SameSets sets₁ sets₂)
+    (h₁ : mergeFieldSets c e sets₁ = .ok r₁) (h₂ : mergeFieldSets c e sets₂ = .ok r₂)
+    {k : String} {t₁ t₂ : Ty} (hm₁ : (k, t₁) ∈ r₁) (hm₂ : (k, t₂) ∈ r₂) :
+    HasOptMember t₁ ↔ HasOptMember t₂ := by
+  rw [mergeFieldSets_hasOpt_iff h₁ hm₁, mergeFieldSets_hasOpt_iff h₂ hm₂]
+  have e1 : HasOptIn sets₁ k ↔ HasOptIn sets₂ k := by
+    constructor
+    · rintro ⟨fs, h, hk⟩; exact ⟨fs, (hs fs).1 h, hk⟩
+    · rintro ⟨fs, h, hk⟩; exact ⟨fs, (hs fs).2 h, hk⟩
+  have e2 : AbsentIn sets₁ k ↔ AbsentIn sets₂ k := by
+    constructor
+    · rintro ⟨fs, h, hk⟩; exact ⟨fs, (hs fs).1 h, hk⟩
+    · rintro ⟨fs, h, hk⟩; exact ⟨fs, (hs fs).2 h, hk⟩
+  rw [e1, e2]
+
+/-- non-vacuity, on `order_witness`: both orders give an optional-like type -/
+example : HasOptMember (.union [.opt .str, .int]) ∧ HasOptMember (.opt (.union [.int, .str])) :=
+  ⟨⟨.opt .str, by simp [Ty.unionMembers, flattenUnion], rfl⟩, hasOptMember_of_isOpt rfl⟩
 
 /-- **`mergeFieldSets_opt_perm_partial`**: on opt-free sets (no `DOptional` at the top or among the
     union members of any incoming field — what `generate` and `_optimize_union` pass during the
